@@ -74,7 +74,7 @@ THEOREMS = [("Kopf.Props.C20", "Kopf.C20." + n) for n in [
     "historical_core_failure_skips_cleanup_witness", "double_cancel_abandons_ensemble_witness", "shielded_never_abandoned"]]
 TIE_THEOREMS = [("Kopf.Tie.C20", "Kopf.C20.Tie." + n) for n in [
     "escalates_eq", "head_is_fixed", "ignores_not_found_eq", "restarts_exited_eq", "scan_cancels_children_eq",
-    "watches_core_eq", "head_core_variant", "shields_stop_eq", "head_shield_variant"]]
+    "watches_core_eq", "head_core_variant", "shields_stop_eq", "head_shield_variant", "no_spawn_while_exiting_eq"]]
 RULE = ("seeded lifecycle histories: 0-2 startup handlers (ok / sleeping / temporary with retries / permanent / retries "
         "exhausted), 0-2 cleanup handlers (ok / sleeping / temporary / permanent), 0-2 daemons (obey / needs cancellation / "
         "swallows one cancellation / exits on its own; with and without cancellation_timeout/backoff), in-flight update handlers "
@@ -271,7 +271,21 @@ def extract(ctx: Ctx) -> None:
         raise ExtractError("startup_cleanup_activities runs no cleanup activity: unknown shape")
     core_after_cleanup = bool(core_reraise) and all(l > max(cleanup_lines) for l in core_reraise)
     ctx.extra["core_awaited_by_stop_flag_checker"] = checker_awaits_core and root_awaits_core
-    facts = {"rootTaskAwaitsCore": root_awaits_core, "coreErrorsAfterCleanup": core_after_cleanup,
+    # (8) daemons.py: the killer's `finally:` marks the memories as exiting BEFORE it looks for the daemons, and spawn_daemons
+    #     spawns nothing for a marked memory (/repo 1d3a667)
+    try:
+        dtree = ast.parse((ctx.repo / "kopf/_core/engines/daemons.py").read_text())
+    except (OSError, SyntaxError) as e:
+        raise ExtractError(f"cannot parse daemons.py: {e}")
+    killer = _find_def(dtree, "daemon_killer")
+    spawner = _find_def(dtree, "spawn_daemons")
+    marks = False
+    for tnode in [n for n in ast.walk(killer) if isinstance(n, ast.Try) and n.finalbody]:
+        first = tnode.finalbody[0]
+        marks = marks or bool(_calls(first, "mark_operator_exiting"))
+    honours = any(isinstance(n, ast.If) and "operator_exiting" in ast.unparse(n.test)
+                  and any(isinstance(b, ast.Return) for b in n.body) for n in ast.walk(spawner))
+    facts = {"killerMarksExiting": marks, "spawnHonoursExiting": honours, "rootTaskAwaitsCore": root_awaits_core, "coreErrorsAfterCleanup": core_after_cleanup,
              "orchestratorShieldsStop": shields_stop, "attachesDoneCallback": attaches, "callbackCancelsOrchestrator": cancels, "callbackIgnoresNotFound": ignores404,
              "reraisesTaskError": reraises, "doneTasksAreRedundant": done_redundant, "scanGathers": gathers,
              "scanCancelsInFinally": cancels_children, "scanUsesAsCompleted": uses_as_completed}
@@ -523,14 +537,15 @@ def abstract(obs: dict, sc: dict | None = None, checker_awaits_core: bool = Fals
             if hkind in ("startup", "cleanup", "login"):     # activities: the core task's login has no label of its own
                 continue
             if hkind == "daemon":
-                if kind == "hBegin":
-                    daemons[(hid, name)] = n_daemons
-                    put("daemonSpawn", n_daemons, hid in coop)
-                    n_daemons += 1
-                else:
-                    put("daemonExit", daemons[(hid, name)])
+                pass        # (the model's daemon is the daemon TASK: labels at `daemonCreated` / `daemonGone`)
             else:
                 put("act", task("worker", a[-1]))
+        elif kind == "daemonCreated":
+            daemons[(a[0], a[1])] = n_daemons
+            put("daemonSpawn", n_daemons, a[0] in coop)
+            n_daemons += 1
+        elif kind == "daemonGone":
+            put("daemonExit", daemons[(a[0], a[1])])
         elif kind == "rtStopRootsBegin":
             put("rtCancel" if a[1] else "rtStopRoots")
             stopping_begun = True
@@ -665,8 +680,11 @@ def oracle(sc: dict, obs: dict) -> tuple[list[tuple[str, dict]], dict]:
     # the situations of the open findings C20-F8 … F11 (each reported under its own signature, see below)
     double_cancel = [i for i, e in enumerate(log) if e[1] == "orchStopSubsCancelled"]
     killer_pos = next((i for i, e in enumerate(log) if e[1] == "killerFinally"), None)
+    # (a daemon is "late" when its TASK was created after the sweep: one whose handler merely begins after the sweep was seen
+    #  by the killer and got its exit stopper)
+    created = {(e[2], e[3]): i for i, e in enumerate(log) if e[1] == "daemonCreated"}
     late_daemons = [] if killer_pos is None else [(log[i][3], log[i][4], i) for i in pos["hBegin"]
-                                                  if log[i][2] == "daemon" and i > killer_pos]
+                                                  if log[i][2] == "daemon" and created.get((log[i][3], log[i][4]), i) > killer_pos]
     stop_cancelled = [i for i, e in enumerate(log) if e[1] == "rtStopRootsCancelled"]
     never_stopped = ret is not None and ret["how"] == "cancelled" and not any(e[1] == "rtStopRootsBegin" for e in log)
     facts["double_cancelled_orchestrator"] = bool(double_cancel)
@@ -875,7 +893,7 @@ def oracle(sc: dict, obs: dict) -> tuple[list[tuple[str, dict]], dict]:
                     running_d.pop((e[3], e[4]), None)
             # (requests of daemons during the cleanup belong to the same deviations: a daemon that is still there)
             coop = coop_daemons(sc)
-            late_running = sorted(d for d, i in running_d.items() if killer_pos is not None and i > killer_pos)
+            late_running = sorted(d for d, i in running_d.items() if killer_pos is not None and created.get(d, i) > killer_pos)
             swept = {d: i for d, i in running_d.items() if d not in late_running}
             running_coop = sorted(d for d in swept if d[0] in coop)
             abandoned = sorted(d for d in swept if d[0] not in coop)
